@@ -17,10 +17,14 @@ import (
 // dispatched to a method that is NOT removed is dispatched to the same method with the same
 // captures afterwards; nothing is dispatched through a verb binding of a removed method;
 // delRule ends (at most one call per accepted binding, plus the one that says false).
-func c11TrieDel(c *Ctx) {
+func c11TrieDel(c *Ctx) { trieDel(c, "C11") }
+
+// trieDel is shared with C02 (routing completeness holds across deletions too): prop names the
+// property the findings are filed under.
+func trieDel(c *Ctx, prop string) {
 	env, err := newRouteEnv(3)
 	if err != nil {
-		c.SpecFail("fixture", "c11 trie", err.Error(), "descriptors", "C11/fixture", "cannot build descriptors")
+		c.SpecFail("fixture", "c11 trie", err.Error(), "descriptors", prop+"/fixture", "cannot build descriptors")
 		return
 	}
 	lit := func(s string) tseg { return tseg{kind: sLit, lit: s} }
@@ -39,6 +43,9 @@ func c11TrieDel(c *Ctx) {
 		{{method: 1, primary: rbind{kind: "GET", t: tm("", lit("p"), tseg{kind: sStar})}}, {method: 2, primary: rbind{kind: "POST", t: tm("", lit("p"), tseg{kind: sStar})}}},
 	}
 	nSets := c.N(250, 5000)
+	if prop != "C11" {
+		nSets = c.N(120, 2500)
+	}
 	verbs := []string{"GET", "POST", "PUT", "DELETE", "PATCH", "LOCK"}
 	for si := 0; si < nSets+len(directed); si++ {
 		var rules []rrule
@@ -107,7 +114,7 @@ func c11TrieDel(c *Ctx) {
 		func() {
 			defer func() {
 				if p := recover(); p != nil {
-					c.SpecFail("deltrie", in0, fmt.Sprint("panic: ", p), "delRule returns", "C11/trie/delrule-panic", "delRule panics")
+					c.SpecFail("deltrie", in0, fmt.Sprint("panic: ", p), "delRule returns", prop+"/trie/delrule-panic", "delRule panics")
 					runaway = true
 				}
 			}()
@@ -122,7 +129,7 @@ func c11TrieDel(c *Ctx) {
 			}
 		}()
 		if runaway {
-			c.SpecFail("deltrie", in0, fmt.Sprintf("%d calls still report true", calls), "at most one successful call per binding", "C11/trie/delrule-runaway", "delRule keeps reporting success")
+			c.SpecFail("deltrie", in0, fmt.Sprintf("%d calls still report true", calls), "at most one successful call per binding", prop+"/trie/delrule-runaway", "delRule keeps reporting success")
 			continue
 		}
 		c.Class("deltrie:calls:" + strconv.Itoa(min(calls, 6)))
@@ -144,11 +151,11 @@ func c11TrieDel(c *Ctx) {
 				}
 			}
 			if after.class == "panic" {
-				c.SpecFail("deltrie", in, "panic", "a result", "C11/trie/route-panic", "routing after delRule panics")
+				c.SpecFail("deltrie", in, "panic", "a result", prop+"/trie/route-panic", "routing after delRule panics")
 				continue
 			}
 			if pr.before.class == "found" && !removed[pr.before.method] && after.line != pr.before.line {
-				c.SpecFail("deltrie", in, after.line, pr.before.line, "C11/trie/other-method-route-lost", "removing the rules of one method changed where a request for another method goes")
+				c.SpecFail("deltrie", in, after.line, pr.before.line, prop+"/trie/other-method-route-lost", "removing the rules of one method changed where a request for another method goes")
 			}
 			if after.class == "found" && removed[after.method] {
 				// only a kind-'*' binding of the removed method may still answer
@@ -159,14 +166,14 @@ func c11TrieDel(c *Ctx) {
 					}
 				}
 				if !star {
-					c.SpecFail("deltrie", in, after.line, "not dispatched to a removed method", "C11/trie/removed-method-still-routed", "a verb rule of the removed method still answers after delRule reported false")
+					c.SpecFail("deltrie", in, after.line, "not dispatched to a removed method", prop+"/trie/removed-method-still-routed", "a verb rule of the removed method still answers after delRule reported false")
 				}
 			}
 		}
 		// the trie the deletions were made on is a clone: the published one is untouched
 		for _, pr := range probes[:min(len(probes), 3)] {
 			if again := implRoute(trie, pr.verb, pr.path); again.line != pr.before.line {
-				c.SpecFail("deltrie", in0, again.line, pr.before.line, "C11/trie/published-trie-changed", "delRule on a clone changed the trie it was cloned from")
+				c.SpecFail("deltrie", in0, again.line, pr.before.line, prop+"/trie/published-trie-changed", "delRule on a clone changed the trie it was cloned from")
 			}
 		}
 	}
